@@ -77,7 +77,7 @@ pub fn parse_header(line: &str) -> Header {
         swap,
         refuse,
         end_aligned,
-        account: account && !swap,
+        account,
     }
 }
 
@@ -281,6 +281,28 @@ pub fn check_trace<B: Backing>(acc: &[Acc], access: &B, len_before: usize, len_a
         }
     }
     None
+}
+
+/// C03: the range the top wrapper holds, as offsets from the data start (` rng=<lo>:<hi>`, appended to the
+/// answer of a successful `reborrow`), and the gate "it is exactly the allocation `[data, data+orig+10240)`".
+pub fn top_range<B: Backing>(stack: &[Box<dyn Level>], access: &B) -> Option<(String, Option<(&'static str, String)>)> {
+    let r = stack.first()?.range();
+    let base = access.base_addr() as i128;
+    let (lo, hi) = (r.start as i128 - base, r.end as i128 - base);
+    let cap = access.cap() as i128;
+    let viol = if lo != 0 || hi != cap {
+        Some((
+            "wrapper_range_not_allocation",
+            format!(
+                "the top wrapper's valid range is data{lo:+}..data{hi:+}, the allocation is data+0..data+{cap} (orig {} + 10240); data_len now {}",
+                access.cap() - crate::access::MAX_INCREASE,
+                access.len()
+            ),
+        ))
+    } else {
+        None
+    };
+    Some((format!(" rng={lo}:{hi}"), viol))
 }
 
 fn answer(prop: Prop, out: &Out, obs: &Obs) -> String {
@@ -498,6 +520,11 @@ pub fn run_case<T: Node + ?Sized, B: Backing>(header_line: &str, hdr: &Header, s
     } else {
         let obs = observe::<T, B>(access, &stack);
         orc.check_state::<T, B>(&obs, &levels, access);
+        if prop == Prop::C03 {
+            if let Some((_, Some((class, detail)))) = top_range(&stack, access) {
+                orc.fail(class, format!("first borrow: {detail}"));
+            }
+        }
     }
     let cap = access.cap();
     out.states.push((orc.model.clone(), vec![]));
@@ -650,6 +677,14 @@ pub fn run_case<T: Node + ?Sized, B: Backing>(header_line: &str, hdr: &Header, s
             c03_violation = check_trace(&trace, access, pre_bytes.len(), obs.len, matches!(impl_out, Out::Err(_)));
             if c03_violation.is_none() && !frame {
                 c03_violation = Some(("frame_modified", format!("`{line}`: bytes outside [0, max(len_before, len_after)) or in the neighbouring slack changed")));
+            }
+            if matches!(plan, Plan::Reborrow) && matches!(impl_out, Out::Ok(_)) {
+                if let Some((txt, viol)) = top_range(&stack, access) {
+                    ans.push_str(&txt);
+                    if c03_violation.is_none() {
+                        c03_violation = viol;
+                    }
+                }
             }
         }
         orc.cx.rec.op(&line, &ans);
